@@ -21,6 +21,11 @@ Definition bind {A B} (x : res A) (f : A -> res B) : res B :=
   match x with Ok a => f a | Rejected => Rejected | Fault => Fault end.
 Notation "x <- e ;; k" := (bind e (fun x => k)) (at level 61, e at next level, right associativity).
 
+(* the four integer widths of appendIntN / prependIntN / peekIntN / readIntN / retrieveIntN *)
+Inductive width : Type := W8 | W16 | W32 | W64.
+Definition wbytes (w : width) : nat :=          (* sizeof(intN_t) *)
+  match w with W8 => 1 | W16 => 2 | W32 => 4 | W64 => 8 end.
+
 Definition kCheapPrepend : nat := Z.to_nat Gen_Consts.Buffer_kCheapPrepend.
 Definition kInitialSize  : nat := Z.to_nat Gen_Consts.Buffer_kInitialSize.
 Definition kExtraBuf     : nat := Z.to_nat Gen_Consts.Buffer_extrabuf_size.
@@ -124,32 +129,78 @@ Definition shrink (reserve : nat) (b : buf) : res buf :=
   o1 <- ensureWritable (readableBytes b + reserve) (new_buf kInitialSize) ;;
   append d o1.
 
-(* readFd, Buffer.cc:25-58.  [avail] = what the descriptor has ready; the kernel
-   fills the iovecs in order up to their total length. *)
+(* readFd, Buffer.cc:25-58.  The kernel's answer to readv(fd, vec, iovcnt) is the
+   environment: either [KData avail] (what the descriptor has ready; the kernel fills the
+   iovecs in order up to their total length, 0 bytes = end of file) or [KErr e] (-1, errno e). *)
+Inductive kres : Type := KData (avail : list byte) | KErr (errno : Z).
+
+(* const int iovcnt = (writable < sizeof extrabuf) ? 2 : 1 *)
+Definition readFd_iovcnt (b : buf) : nat := if writableBytes b <? kExtraBuf then 2 else 1.
+
 Definition readFd_capacity (b : buf) : nat :=
   if writableBytes b <? kExtraBuf then writableBytes b + kExtraBuf else writableBytes b.
 
-Definition readFd (avail : list byte) (b : buf) : res (buf * nat) :=
-  let writable := writableBytes b in
-  let data := firstn (readFd_capacity b) avail in
-  let n := length data in
-  if n <=? writable then
-    s' <- mem (write_at (store b) (widx b) data) ;;
-    Ok (mkBuf s' (ridx b) (widx b + n) (up b), n)
-  else
-    (* kernel filled vec[0] completely, the rest went to extrabuf *)
-    s' <- mem (write_at (store b) (widx b) (firstn writable data)) ;;
-    let spill := skipn writable data in
-    if length spill <=? kExtraBuf then
-      b2 <- append spill (mkBuf s' (ridx b) (length s') (up b)) ;;
-      Ok (b2, n)
-    else Fault.
+Record rfd : Type := mkRfd {
+  rf_n : Z;                  (* return value: result of readv *)
+  rf_iovcnt : nat;           (* number of iovecs offered *)
+  rf_len0 : nat;             (* vec[0].iov_len *)
+  rf_errno : option Z        (* *savedErrno written? *)
+}.
 
-(* integers, Buffer.h:224-346; k = 1,2,4,8 bytes *)
-Definition appendInt (k : nat) (x : Z) (b : buf) : res buf := append (be_encode k x) b.
-Definition prependInt (k : nat) (x : Z) (b : buf) : res buf := prepend (be_encode k x) b.
-Definition peekInt (k : nat) (b : buf) : res Z :=
-  d <- peekBytes k b ;; Ok (be_decode_signed d).
+Definition readFd (k : kres) (b : buf) : res (buf * rfd) :=
+  let writable := writableBytes b in
+  let cnt := readFd_iovcnt b in
+  match k with
+  | KErr e =>                                   (* n < 0: *savedErrno = errno; nothing else *)
+      Ok (b, mkRfd (-1) cnt writable (Some e))
+  | KData avail =>
+      let data := firstn (readFd_capacity b) avail in
+      let n := length data in
+      if n <=? writable then
+        s' <- mem (write_at (store b) (widx b) data) ;;
+        Ok (mkBuf s' (ridx b) (widx b + n) (up b), mkRfd (Z.of_nat n) cnt writable None)
+      else
+        (* kernel filled vec[0] completely, the rest went to extrabuf *)
+        s' <- mem (write_at (store b) (widx b) (firstn writable data)) ;;
+        let spill := skipn writable data in
+        if (length spill <=? kExtraBuf) && (cnt =? 2) then
+          b2 <- append spill (mkBuf s' (ridx b) (length s') (up b)) ;;
+          Ok (b2, mkRfd (Z.of_nat n) cnt writable None)
+        else Fault
+  end.
+
+(* integers, Buffer.h:224-352.  appendIntN(x): beN = hostToNetworkN(x); append(&beN, sizeof beN);
+   prependIntN likewise; peekIntN: assert(readableBytes() >= sizeof(intN_t)); memcpy; networkToHostN;
+   readIntN = peekIntN then retrieveIntN = retrieve(sizeof(intN_t)). *)
+Definition appendInt (w : width) (x : Z) (b : buf) : res buf := append (be_encode (wbytes w) x) b.
+Definition prependInt (w : width) (x : Z) (b : buf) : res buf := prepend (be_encode (wbytes w) x) b.
+Definition peekInt (w : width) (b : buf) : res Z :=
+  d <- peekBytes (wbytes w) b ;; Ok (be_decode_signed d).
+Definition retrieveInt (w : width) (b : buf) : res buf := retrieve (wbytes w) b.
+Definition readInt (w : width) (b : buf) : res (buf * Z) :=
+  z <- peekInt w b ;; b' <- retrieveInt w b ;; Ok (b', z).
+
+(* pointer arguments (retrieveUntil(end), findCRLF(start), findEOL(start)) are modelled by their
+   signed offset from peek(): assert(peek() <= p); assert(p <= beginWrite()) *)
+Definition ptr_ok (off : Z) (b : buf) : bool :=
+  (0 <=? off)%Z && (off <=? Z.of_nat (readableBytes b))%Z.
+
+(* retrieveUntil(end): two asserts, then retrieve(end - peek()), Buffer.h:126-131 *)
+Definition retrieveUntil (off : Z) (b : buf) : res buf :=
+  if ptr_ok off b then retrieve (Z.to_nat off) b else Rejected.
+
+(* retrieveAsString(len), Buffer.h:164-170; retrieveAllAsString() = retrieveAsString(readableBytes()) *)
+Definition retrieveAsString (len : nat) (b : buf) : res (buf * list byte) :=
+  d <- peekBytes len b ;; b' <- retrieve len b ;; Ok (b', d).
+Definition retrieveAllAsString (b : buf) : res (buf * list byte) :=
+  retrieveAsString (readableBytes b) b.
+
+(* toStringPiece(): StringPiece(peek(), readableBytes()) *)
+Definition toStringPiece (b : buf) : res (list byte) := peekBytes (readableBytes b) b.
+
+(* internalCapacity() = buffer_.capacity(); the allocator is not modelled, only the bound
+   std::vector guarantees: capacity() >= size().  The model returns that lower bound. *)
+Definition internalCapacity_lb (b : buf) : nat := length (store b).
 
 (* searches, Buffer.h:78-111: the scanned window is [peek()+from, beginWrite()) *)
 Definition CR : byte := x0d.
@@ -175,32 +226,45 @@ Definition findFrom (f : list byte -> option nat) (from : nat) (b : buf) : res (
     Ok (option_map (fun i => from + i) (f win))
   else Rejected.
 
+(* findCRLF(start) / findEOL(start): start = peek() + off *)
+Definition findAt (f : list byte -> option nat) (off : Z) (b : buf) : res (option nat) :=
+  if ptr_ok off b then findFrom f (Z.to_nat off) b else Rejected.
+
 (* ---- operations, outputs, step ------------------------------------------ *)
 Inductive op : Type :=
 | Append (d : list byte)
 | Prepend (d : list byte)
 | Retrieve (n : nat)
+| RetrieveUntil (off : Z)
+| RetrieveInt (w : width)
 | RetrieveAll
 | RetrieveAsString (n : nat)
+| RetrieveAllAsString
+| ToStringPiece
 | EnsureWritable (n : nat)
 | HasWritten (d : list byte)
 | Unwrite (n : nat)
 | Shrink (reserve : nat)
+| InternalCapacity
 | Swap
-| ReadFd (avail : list byte)
-| AppendInt (k : nat) (x : Z)
-| PrependInt (k : nat) (x : Z)
-| PeekInt (k : nat)
-| ReadInt (k : nat)
-| FindCRLF (from : nat)
-| FindEOL (from : nat).
+| Assign                     (* second = first: the implicit copy assignment *)
+| ReadFd (k : kres)
+| AppendInt (w : width) (x : Z)
+| PrependInt (w : width) (x : Z)
+| PeekInt (w : width)
+| ReadInt (w : width)
+| FindCRLF0                  (* findCRLF() *)
+| FindEOL0                   (* findEOL() *)
+| FindCRLF (from : Z)        (* findCRLF(peek() + from) *)
+| FindEOL (from : Z).
 
 Inductive out : Type :=
 | OUnit
 | ONat (n : nat)
 | OBytes (l : list byte)
 | OInt (z : Z)
-| OIdx (i : option nat).
+| OIdx (i : option nat)
+| ORead (r : rfd).
 
 (* two buffers so that swap() is an operation; all other ops act on the first *)
 Definition state : Type := (buf * buf)%type.
@@ -214,21 +278,28 @@ Definition step (st : state) (o : op) : res (state * out) :=
   | Append d => on_fst (append d b) st OUnit
   | Prepend d => on_fst (prepend d b) st OUnit
   | Retrieve n => on_fst (retrieve n b) st OUnit
+  | RetrieveUntil off => on_fst (retrieveUntil off b) st OUnit
+  | RetrieveInt w => on_fst (retrieveInt w b) st OUnit
   | RetrieveAll => Ok ((retrieveAll b, snd st), OUnit)
-  | RetrieveAsString n =>
-      d <- peekBytes n b ;; on_fst (retrieve n b) st (OBytes d)
+  | RetrieveAsString n => r <- retrieveAsString n b ;; Ok ((fst r, snd st), OBytes (snd r))
+  | RetrieveAllAsString => r <- retrieveAllAsString b ;; Ok ((fst r, snd st), OBytes (snd r))
+  | ToStringPiece => d <- toStringPiece b ;; Ok (st, OBytes d)
   | EnsureWritable n => on_fst (ensureWritable n b) st OUnit
   | HasWritten d => on_fst (hasWrittenBytes d b) st OUnit
   | Unwrite n => on_fst (unwrite n b) st OUnit
   | Shrink r => on_fst (shrink r b) st OUnit
+  | InternalCapacity => Ok (st, ONat (internalCapacity_lb b))
   | Swap => Ok ((snd st, fst st), OUnit)
-  | ReadFd avail => r <- readFd avail b ;; Ok ((fst r, snd st), ONat (snd r))
-  | AppendInt k x => on_fst (appendInt k x b) st OUnit
-  | PrependInt k x => on_fst (prependInt k x b) st OUnit
-  | PeekInt k => z <- peekInt k b ;; Ok (st, OInt z)
-  | ReadInt k => z <- peekInt k b ;; on_fst (retrieve k b) st (OInt z)
-  | FindCRLF from => i <- findFrom find_crlf from b ;; Ok (st, OIdx i)
-  | FindEOL from => i <- findFrom find_eol from b ;; Ok (st, OIdx i)
+  | Assign => Ok ((fst st, fst st), OUnit)
+  | ReadFd k => r <- readFd k b ;; Ok ((fst r, snd st), ORead (snd r))
+  | AppendInt w x => on_fst (appendInt w x b) st OUnit
+  | PrependInt w x => on_fst (prependInt w x b) st OUnit
+  | PeekInt w => z <- peekInt w b ;; Ok (st, OInt z)
+  | ReadInt w => r <- readInt w b ;; Ok ((fst r, snd st), OInt (snd r))
+  | FindCRLF0 => i <- findFrom find_crlf 0 b ;; Ok (st, OIdx i)
+  | FindEOL0 => i <- findFrom find_eol 0 b ;; Ok (st, OIdx i)
+  | FindCRLF from => i <- findAt find_crlf from b ;; Ok (st, OIdx i)
+  | FindEOL from => i <- findAt find_eol from b ;; Ok (st, OIdx i)
   end.
 
 (* run a whole op list; the trace keeps every output *)
@@ -244,40 +315,60 @@ Fixpoint run (st : state) (ops : list op) : res (state * list out) :=
 (* ---- abstract specification: a plain FIFO of bytes ----------------------- *)
 Definition sstate : Type := (list byte * list byte)%type.
 
-(* documented preconditions, in terms of the public size observers only *)
+(* documented preconditions (the asserts on arguments), in terms of the public size observers only *)
 Definition guard (b : buf) (o : op) : bool :=
   match o with
   | Prepend d => length d <=? prependableBytes b
-  | PrependInt k _ => k <=? prependableBytes b
-  | Retrieve n | RetrieveAsString n | Unwrite n | PeekInt n | ReadInt n =>
-      n <=? readableBytes b
+  | PrependInt w _ => wbytes w <=? prependableBytes b
+  | Retrieve n | RetrieveAsString n | Unwrite n => n <=? readableBytes b
+  | RetrieveInt w | PeekInt w | ReadInt w => wbytes w <=? readableBytes b
   | HasWritten d => length d <=? writableBytes b
-  | FindCRLF from | FindEOL from => from <=? readableBytes b
+  | RetrieveUntil off | FindCRLF off | FindEOL off => ptr_ok off b
   | _ => true
   end.
 
-(* [cap] is the capacity readFd offers to the kernel (a function of writableBytes) *)
-Definition spec_step (s : sstate) (cap : nat) (o : op) : sstate * out :=
+(* what the kernel delivered of [k] into a capacity of [cap] bytes *)
+Definition delivered (cap : nat) (k : kres) : list byte :=
+  match k with KData avail => firstn cap avail | KErr _ => [] end.
+
+Definition find_spec (f : list byte -> option nat) (from : nat) (l : list byte) : out :=
+  OIdx (option_map (fun i => from + i) (f (skipn from l))).
+
+(* [b] is the concrete first buffer before the op: the spec may look at its public size
+   observers only (writableBytes for readFd's capacity, buffer_.size() for the capacity bound) *)
+Definition spec_step (s : sstate) (b : buf) (o : op) : sstate * out :=
   let l := fst s in
   let keep (l' : list byte) (o : out) := ((l', snd s), o) in
   match o with
   | Append d => keep (l ++ d) OUnit
   | Prepend d => keep (d ++ l) OUnit
   | Retrieve n => keep (skipn n l) OUnit
+  | RetrieveUntil off => keep (skipn (Z.to_nat off) l) OUnit
+  | RetrieveInt w => keep (skipn (wbytes w) l) OUnit
   | RetrieveAll => keep [] OUnit
   | RetrieveAsString n => keep (skipn n l) (OBytes (firstn n l))
+  | RetrieveAllAsString => keep [] (OBytes l)
+  | ToStringPiece => keep l (OBytes l)
   | EnsureWritable _ => keep l OUnit
   | HasWritten d => keep (l ++ d) OUnit
   | Unwrite n => keep (firstn (length l - n) l) OUnit
   | Shrink _ => keep l OUnit
+  | InternalCapacity =>
+      keep l (ONat (prependableBytes b + readableBytes b + writableBytes b))
   | Swap => ((snd s, fst s), OUnit)
-  | ReadFd avail => keep (l ++ firstn cap avail) (ONat (length (firstn cap avail)))
-  | AppendInt k x => keep (l ++ be_encode k x) OUnit
-  | PrependInt k x => keep (be_encode k x ++ l) OUnit
-  | PeekInt k => keep l (OInt (be_decode_signed (firstn k l)))
-  | ReadInt k => keep (skipn k l) (OInt (be_decode_signed (firstn k l)))
-  | FindCRLF from =>
-      keep l (OIdx (option_map (fun i => from + i) (find_crlf (skipn from l))))
-  | FindEOL from =>
-      keep l (OIdx (option_map (fun i => from + i) (find_eol (skipn from l))))
+  | Assign => ((fst s, fst s), OUnit)
+  | ReadFd k =>
+      let d := delivered (readFd_capacity b) k in
+      keep (l ++ d)
+           (ORead (mkRfd (match k with KData _ => Z.of_nat (length d) | KErr _ => -1 end)
+                         (readFd_iovcnt b) (writableBytes b)
+                         (match k with KData _ => None | KErr e => Some e end)))
+  | AppendInt w x => keep (l ++ be_encode (wbytes w) x) OUnit
+  | PrependInt w x => keep (be_encode (wbytes w) x ++ l) OUnit
+  | PeekInt w => keep l (OInt (be_decode_signed (firstn (wbytes w) l)))
+  | ReadInt w => keep (skipn (wbytes w) l) (OInt (be_decode_signed (firstn (wbytes w) l)))
+  | FindCRLF0 => keep l (find_spec find_crlf 0 l)
+  | FindEOL0 => keep l (find_spec find_eol 0 l)
+  | FindCRLF from => keep l (find_spec find_crlf (Z.to_nat from) l)
+  | FindEOL from => keep l (find_spec find_eol (Z.to_nat from) l)
   end.
